@@ -365,6 +365,29 @@ func ruleC04_5(c *Ctx, r *Rep) {
 						same = true
 					}
 				}
+				// the loop body may have been moved into a helper taking the row as a parameter: then both are that parameter
+				if !same {
+					root := func(v ssa.Value) ssa.Value {
+						v = resolve(v)
+						for i := 0; i < 6; i++ {
+							switch x := v.(type) {
+							case *ssa.UnOp:
+								v = resolve(x.X)
+								continue
+							case *ssa.FieldAddr:
+								v = resolve(x.X)
+								continue
+							}
+							break
+						}
+						return v
+					}
+					if p1, ok1 := root(nd.Call.Args[1]).(*ssa.Parameter); ok1 {
+						if p2, ok2 := root(u.RootArg).(*ssa.Parameter); ok2 && p1 == p2 {
+							same = true
+						}
+					}
+				}
 				if same && sources(nd.Call.Args[1])["field:Attempts"] {
 					okArg = true
 				} else {
@@ -416,6 +439,23 @@ func predecessorLookup(c *Ctx) *Stmt {
 // helper whose corresponding parameter is bound, at its only call site, to a parameter of fn.
 func fieldOfParamOf(v ssa.Value, fn *ssa.Function, field string) bool {
 	v = resolve(v)
+	// the value itself may be a parameter of a private helper (`lastOrderedDelivery(…, *m.OrderKey, …)`), possibly
+	// captured by a closure there: continue with the argument of its only call site
+	for i := 0; i < 4; i++ {
+		if fv, isFV := v.(*ssa.FreeVar); isFV {
+			if b := freeVarBinding(fv); b != nil {
+				v = resolve(b)
+				continue
+			}
+		}
+		if p, isP := v.(*ssa.Parameter); isP && p.Parent() != fn {
+			if a := uniqueCallerArg(p); a != nil {
+				v = resolve(a)
+				continue
+			}
+		}
+		break
+	}
 	// *x.Field, possibly behind a pointer load (**x.Field for a *string field)
 	for i := 0; i < 3; i++ {
 		u, ok := v.(*ssa.UnOp)
@@ -891,6 +931,18 @@ func ruleC06_3(c *Ctx, r *Rep) {
 				for _, s := range c.findStmts(fnNack, "deliveries", "update") {
 					for _, t := range s.Terms {
 						if reach[t.Call.Block()] && l.Blocks[t.Call.Block()] {
+							ok = false
+						}
+					}
+				}
+			} else if c.Key(nk) != fnNack {
+				// the loop body was moved into a helper that handles one delivery: the rest of the helper is the rest
+				// of the iteration
+				ok = true
+				reach := reachableFrom(ci.Block().Succs, nil)
+				for _, s := range c.findStmts(fnNack, "deliveries", "update") {
+					for _, t := range s.Terms {
+						if t.Call.Parent() == nk && reach[t.Call.Block()] {
 							ok = false
 						}
 					}
